@@ -429,6 +429,15 @@ func (c *Ctx) iteVal(cond Term, a, b Val) Val {
 		return b
 	}
 	switch x := a.(type) {
+	case boxed:
+		y, ok := b.(boxed)
+		if !ok {
+			unsupp("ite: kind mismatch")
+		}
+		if x.Ref.S == y.Ref.S {
+			return x
+		}
+		return boxed{Ite(cond, x.Ref, y.Ref)}
 	case Scalar:
 		y, ok := b.(Scalar)
 		if !ok {
@@ -624,6 +633,7 @@ func (c *Ctx) writeLeaf(st *State, fam, leaf string, ref, idx, v Term) {
 // load reads a value of type t stored at (prefix, ref, idx). Range facts of loaded integers are assumed (Go's
 // type system guarantees them); they are conjoined to st.pc.
 func (c *Ctx) load(st *State, prefix string, t types.Type, ref, idx Term) Val {
+	c.viewGuard(prefix, ref)
 	switch u := shapeOf(t).(type) {
 	case *types.Basic, *types.Interface, *types.Signature, *types.Map, *types.Chan, *types.TypeParam:
 		srt := c.scalarSort(t)
@@ -679,6 +689,7 @@ func (c *Ctx) load(st *State, prefix string, t types.Type, ref, idx Term) Val {
 }
 
 func (c *Ctx) store(st *State, prefix string, t types.Type, ref, idx Term, v Val) {
+	c.viewGuard(prefix, ref)
 	switch u := shapeOf(t).(type) {
 	case *types.Basic, *types.Interface, *types.Signature, *types.Map, *types.Chan, *types.TypeParam:
 		srt := c.scalarSort(t)
@@ -727,6 +738,13 @@ func (c *Ctx) store(st *State, prefix string, t types.Type, ref, idx Term, v Val
 }
 
 // leafFamilies lists (family, leaf sort) pairs of type t under prefix.
+// viewGuard: an object viewed as raw bytes through unsafe.Pointer may only be accessed at its real type.
+func (c *Ctx) viewGuard(prefix string, ref Term) {
+	if vt, ok := c.views[ref.S]; ok && prefix != c.elemPrefix(vt) {
+		unsupp("element access through an unsafe byte view")
+	}
+}
+
 func (c *Ctx) leafFamilies(prefix string, t types.Type, out *[][2]string) {
 	switch u := shapeOf(t).(type) {
 	case *types.Basic, *types.Interface, *types.Signature, *types.Map, *types.Chan, *types.TypeParam:
